@@ -180,6 +180,11 @@ typedef struct {
 	int ran;
 } mrun_t;
 
+/* A caller may reuse one jwt_value_t for several calls, editing only name/value/replace: the error code of an earlier
+ * call is then still in the structure.  In every second case the harness leaves such a stale code behind. */
+static int stale_error;
+#define POISON(v) do { if (stale_error) (v).error = (jwt_value_error_t)stale_error; } while (0)
+
 static void impl_apply(mrun_t *run, jwt_t *jwt, const mop_t *op, mres_t *r)
 {
 	jwt_value_t v;
@@ -201,6 +206,7 @@ static void impl_apply(mrun_t *run, jwt_t *jwt, const mop_t *op, mres_t *r)
 		case JWT_VALUE_BOOL: jwt_set_GET_BOOL(&v, op->name); break;
 		default: jwt_set_GET_JSON(&v, op->name); break;
 		}
+		POISON(v);
 		if (jwt)
 			r->rc = hdr ? jwt_header_get(jwt, &v) : jwt_claim_get(jwt, &v);
 		else
@@ -229,6 +235,7 @@ static void impl_apply(mrun_t *run, jwt_t *jwt, const mop_t *op, mres_t *r)
 		break;
 	}
 	v.replace = op->replace;
+	POISON(v);
 	if (jwt)
 		r->rc = hdr ? jwt_header_set(jwt, &v) : jwt_claim_set(jwt, &v);
 	else
@@ -389,6 +396,7 @@ static void c15_for_receiver(int rcv, int maxdepth)
 			ms_find_or_add(canon, cur, op, depth + 1, &added);
 			c15_transitions++;
 			if (vf_case("%s: [%s] then %s", rcv_name[rcv], mhist_str(hops, hn), MOPS[op].label)) {
+				stale_error = (vf_case_index() & 1) ? 1 + (int)(vf_case_index() / 2 % 4) : 0;
 				/* implementation: fresh receiver, replay history + op, compare every step with the model */
 				int ops[16];
 				memcpy(ops, hops, sizeof(int) * hn);
